@@ -37,7 +37,9 @@ theorem addToRoots_perm (roots : List Tr) (up : Tr) : (addToRoots roots up).Perm
     · exact List.Perm.swap _ _ _
 
 theorem addToRoots_ne_nil (roots : List Tr) (up : Tr) : addToRoots roots up ≠ [] := by
-  unfold addToRoots; split <;> [simp; (split <;> simp)]
+  unfold addToRoots; split
+  · simp
+  · split <;> simp
 
 theorem addToRoots_headMin {roots : List Tr} (h : HeadMin roots) (up : Tr) :
     HeadMin (addToRoots roots up) := by
@@ -94,35 +96,42 @@ theorem rotateTo_perm (idx : Nat) (l : List Tr) : (rotateTo idx l).Perm l := by
 
 theorem rotateTo_not_found {idx : Nat} {l : List Tr} (h : ∀ t ∈ l, t.idx ≠ idx) :
     rotateTo idx l = l := by
-  unfold rotateTo
   have h1 : l.takeWhile (fun t => decide (t.idx ≠ idx)) = l := by
-    rw [List.takeWhile_eq_self_iff]; intro t ht; simpa using h t ht
+    induction l with
+    | nil => rfl
+    | cons a as ih =>
+      have ha : a.idx ≠ idx := h a (by simp)
+      rw [List.takeWhile_cons, ih (fun t ht => h t (by simp [ht]))]; simp [ha]
   have h2 : l.dropWhile (fun t => decide (t.idx ≠ idx)) = [] := by
-    rw [List.dropWhile_eq_nil_iff]; intro t ht; simpa using h t ht
-  simp [h1, h2]
-
-theorem rotateTo_found {idx : Nat} {l : List Tr} (h : ∃ t ∈ l, t.idx = idx) :
-    ∃ t rest, rotateTo idx l = t :: rest ∧ t.idx = idx := by
+    induction l with
+    | nil => rfl
+    | cons a as ih =>
+      have ha : a.idx ≠ idx := h a (by simp)
+      have h1' : as.takeWhile (fun t => decide (t.idx ≠ idx)) = as := by
+        have := h1; rw [List.takeWhile_cons] at this; simp [ha] at this; simpa using this
+      rw [List.dropWhile_cons, ih (fun t ht => h t (by simp [ht])) h1']; simp [ha]
   unfold rotateTo
+  rw [h1, h2]; rfl
+
+theorem dropWhile_found {idx : Nat} {l : List Tr} (h : ∃ t ∈ l, t.idx = idx) :
+    ∃ b bs, l.dropWhile (fun t => decide (t.idx ≠ idx)) = b :: bs ∧ b.idx = idx := by
   induction l with
   | nil => simp at h
   | cons a as ih =>
     by_cases ha : a.idx = idx
-    · exact ⟨a, as, by simp [List.takeWhile_cons, List.dropWhile_cons, ha], ha⟩
+    · exact ⟨a, as, by simp [List.dropWhile_cons, ha], ha⟩
     · have : ∃ t ∈ as, t.idx = idx := by
         obtain ⟨t, ht, hti⟩ := h
         simp only [List.mem_cons] at ht
         rcases ht with rfl | ht
         · exact absurd hti ha
         · exact ⟨t, ht, hti⟩
-      obtain ⟨t, rest, h1, h2⟩ := ih this
-      simp only [List.takeWhile_cons, List.dropWhile_cons, ha, ne_eq, not_false_eq_true, decide_true,
-        if_true]
-      cases hd : as.dropWhile (fun t => decide (t.idx ≠ idx)) with
-      | nil => simp [hd] at h1; simp_all
-      | cons b bs =>
-        refine ⟨b, bs ++ a :: as.takeWhile (fun t => decide (t.idx ≠ idx)), by simp, ?_⟩
-        simp [hd] at h1
-        rw [← h1.1] at h2; exact h2
+      obtain ⟨b, bs, h1, h2⟩ := ih this
+      exact ⟨b, bs, by simp only [List.dropWhile_cons, ha, ne_eq, not_false_eq_true, decide_true, if_true]; exact h1, h2⟩
+
+theorem rotateTo_found {idx : Nat} {l : List Tr} (h : ∃ t ∈ l, t.idx = idx) :
+    ∃ t rest, rotateTo idx l = t :: rest ∧ t.idx = idx := by
+  obtain ⟨b, bs, h1, h2⟩ := dropWhile_found h
+  exact ⟨b, bs ++ l.takeWhile (fun t => decide (t.idx ≠ idx)), by unfold rotateTo; rw [h1]; rfl, h2⟩
 
 end TapkeeVerif.FibHeap
